@@ -24,7 +24,7 @@ Inductive io := IoData (id len : nat) (v : verdict) | IoEof.
 Inductive conn_outcome := COk | CRefused | CHang.
 
 Inductive cb :=
-| CbTask (k : nat) | CbConnMade (t : nat) | CbAddReader (t : nat) | CbWaiter (k : nat)
+| CbTask (k : nat) | CbConnMade (t : nat) | CbAddReader (t : nat) | CbWaiter (k : nat) (t : nat)
 | CbRead (t : nat) (i : io) | CbSoon | CbTimer (h : nat) | CbConnLost (t : nat)
 | CbErr (t : nat) | CbFatal (t : nat) | CbWfTimeout (k : nat).
 
@@ -99,6 +99,9 @@ Fixpoint awaiting (f : nat) (l : list (nat * task)) : option nat :=
 Definition push (s : st) (c : cb) : st := s <| s_ready := s_ready s ++ [c] |>.
 (* the future of lock waiter w has been completed by release() (and the waiter has not run yet) *)
 Definition woken (s : st) (w : nat) : bool := existsb (fun p => Nat.eqb (fst p) w && snd p) (s_waiters s).
+(* the waiter future of task k's connection attempt t has not been completed yet (its set_result handle is still queued) *)
+Definition has_waiter (k t : nat) (l : list cb) : bool :=
+  existsb (fun c => match c with CbWaiter k' t' => Nat.eqb k k' && Nat.eqb t t' | _ => false end) l.
 (* a wake-up of task k is already scheduled *)
 Definition has_task (k : nat) (l : list cb) : bool := existsb (fun c => match c with CbTask k' => Nat.eqb k k' | _ => false end) l.
 
@@ -266,7 +269,7 @@ Section Attempt.
         match c with
         | COk => let t := length (s_tr s) in
                  let s := s <| s_tr := s_tr s ++ [TNew] |> in
-                 let s := push (push (push s (CbConnMade t)) (CbAddReader t)) (CbWaiter k) in
+                 let s := push (push (push s (CbConnMade t)) (CbAddReader t)) (CbWaiter k t) in
                  (set_pc (upd_task s k (fun tk => tk <| t_depth := depth |>)) k (PcConnWait t), [AOpen t])
         | CRefused =>
             let s := upd_task s k (fun tk => tk <| t_wf := false |>) in
@@ -316,6 +319,7 @@ Definition task_step (s : st) (k : nat) : st * list action :=
             (* wait_for timed out: the half-made transport is closed, TimeoutError *)
             let s := upd_task s k (fun x => x <| t_cancelled := false |> <| t_wf := false |>) in
             sr_exception (sr_attempt (fuel_of s)) (tr_close s t) k depth XTimeoutErr
+          else if has_waiter k t (s_ready s) then (s, [])     (* `await waiter` only returns once the waiter future is done *)
           else
             let s := upd_task s k (fun x => x <| t_wf := false |>) in
             let s := s <| s_transport := Some t |> in
@@ -398,10 +402,11 @@ Definition run_cb (s : st) (c : cb) : st * list action :=
       let s := match tstate_of s t with TNew => s <| s_tr := set_nth t TUp (s_tr s) |> | _ => s end in
       (match s_kind s with UDP => s <| s_transport := Some t |> | TCP => s end, [])
   | CbAddReader _ => (s, [])
-  | CbWaiter k =>
+  | CbWaiter k t =>
+      (* futures._set_result_unless_cancelled(waiter) of connection attempt t *)
       match get_task k (s_tasks s) with
       | Some tk => match t_pc tk with
-                   | PcConnWait _ => if t_cancelled tk then (s, []) else (push s (CbTask k), [])
+                   | PcConnWait t' => if negb (Nat.eqb t t') || t_cancelled tk then (s, []) else (push s (CbTask k), [])
                    | _ => (s, []) end
       | None => (s, []) end
   | CbRead t i =>
@@ -517,7 +522,7 @@ Definition label_matches (c : cb) (l : label) : bool :=
   | CbTask k, LTask k' => Nat.eqb k k'
   | CbConnMade t, LConnMade t' | CbAddReader t, LAddReader t' | CbConnLost t, LConnLost t'
   | CbErr t, LErr t' | CbFatal t, LFatal t' => Nat.eqb t t'
-  | CbWaiter k, LWaiter k' | CbWfTimeout k, LWf k' => Nat.eqb k k'
+  | CbWaiter k _, LWaiter k' | CbWfTimeout k, LWf k' => Nat.eqb k k'
   | CbRead t i, LRead t' i' => Nat.eqb t t' && io_eqb i i'
   | CbSoon, LSoon => true
   | CbTimer h, LTimer h' => Nat.eqb h h'
